@@ -39,6 +39,14 @@ def _mods():
     return m_bv, m_ebv, m_gebv, m_sm, m_tm
 
 
+def _repaired():
+    """does the tree under test override the five inherited taxa routines in DenseBreedingValueMatrix (the proposed
+    repair of D23-D25)?  Then the model to compare with is `applyOpRepaired`, and nothing is a known finding."""
+    m_bv = _mods()[0]
+    d = m_bv.DenseBreedingValueMatrix.__dict__
+    return all(k in d for k in ("append_taxa", "incorp_taxa", "remove_taxa", "concat_taxa"))
+
+
 def _classes():
     m_bv, m_ebv, m_gebv, m_sm, _ = _mods()
     return {"BV": m_bv.DenseBreedingValueMatrix,
@@ -96,9 +104,13 @@ def _no_inf(x):
     return "nan" if x in ("inf", "-inf") else x
 
 
+def _same(a, b):
+    return a.shape == b.shape and bool(((a == b) | (numpy.isnan(a) & numpy.isnan(b))).all())
+
+
 def _snap(b):
     n, t = b.mat.shape
-    d = {"taxa": _ids(b.taxa) if b.taxa is not None else [],
+    d = {"n": int(n), "taxa": _ids(b.taxa) if b.taxa is not None else None,
          "taxa_grp": None if b.taxa_grp is None else [int(g) for g in b.taxa_grp],
          "mat": _enc_cols(b.mat), "loc": canon.enc(numpy.asarray(b.location, dtype=float)),
          "scale": canon.enc(numpy.asarray(b.scale, dtype=float)), "unscale": _enc_cols(b.unscale())}
@@ -114,12 +126,31 @@ def _snap(b):
     return d
 
 
-def _operand(cls, v, t, grp):
-    rows = _np_rows(v["rows"], t)
+def _layout(a, how):
+    """the same values in another memory layout: Fortran order, or a strided view of a larger buffer"""
+    if how == "F":
+        return numpy.asfortranarray(a)
+    if how == "strided":
+        big = numpy.full((2 * a.shape[0] + 1,) + a.shape[1:], 4242.0)
+        big[1::2] = a
+        return big[1::2]
+    return a
+
+
+class _ProbeMismatch(Exception):
+    pass
+
+
+def _operand(cls, v, t, grp, notaxa=False, me=None):
+    if v["as"] == "self":
+        return me, {}
+    rows = _layout(_np_rows(v["rows"], t), v.get("layout"))
     g = _grps(v["taxa"]) if grp else None
+    names = None if notaxa else _names(v["taxa"])
     if v["as"] == "bv":
-        return cls.from_numpy(rows, taxa=_names(v["taxa"]), taxa_grp=g), {}
-    return rows, ({"taxa": _names(v["taxa"]), "taxa_grp": g} if grp else {"taxa": _names(v["taxa"])})
+        ocls = _classes()[v["cls"]] if v.get("cls") else cls
+        return ocls.from_numpy(rows, taxa=names, taxa_grp=g), {}
+    return rows, ({"taxa": names, "taxa_grp": g} if grp else {"taxa": names})
 
 
 def _index(form, idx):
@@ -146,9 +177,35 @@ def _pyobj(obj):
     raise ValueError(k)
 
 
-def _apply(cls, b, op, t, generic, grp=False):
+def _sort_perm(ids, grp):
+    """the permutation sort_taxa() applies: numpy.lexsort((taxa, taxa_grp)) — by group, then by name (stable)"""
+    return sorted(range(len(ids)), key=lambda i: ((ids[i] % 3) if grp else 0, "t%d" % ids[i]))
+
+
+def _apply(cls, b, op, t, generic, grp=False, notaxa=False):
     """apply one taxa operation; returns the resulting matrix (in-place operations return `b`)"""
     k = op["op"]
+    if k == "copy":
+        return b.copy() if op.get("how") == "method" else copy.copy(b)
+    if k == "deepcopy":
+        return b.deepcopy() if op.get("how") == "method" else copy.deepcopy(b)
+    if k == "probe":
+        # a read-only request on the CURRENT object whose result is thrown away: the object stays, the answer
+        # must be the selection of what unscale() returns now (whatever was asked, or edited, before)
+        r = b.select(op["idx"], axis=0) if generic else b.select_taxa(op["idx"])
+        want = numpy.take(b.unscale(), op["idx"], axis=0)
+        got = r.unscale()
+        if got.shape != want.shape or not numpy.allclose(got, want, rtol=1e-9, atol=1e-9 * (1 + numpy.nanmax(
+                numpy.abs(numpy.nan_to_num(want)), initial=0.0)), equal_nan=True):
+            raise _ProbeMismatch(f"select_taxa({op['idx']}) on the current object returned {got.tolist()}, "
+                                 f"its unscale() selects to {want.tolist()}")
+        return b
+    if k == "sort":
+        if op.get("group"):
+            b.group(axis=0) if generic else b.group_taxa()
+        else:
+            b.sort(None, axis=0) if generic else b.sort_taxa()
+        return b
     if k == "select":
         ix = _index(op.get("form", "list"), op["idx"])
         return b.select(ix, axis=0) if generic else b.select_taxa(ix)
@@ -156,14 +213,14 @@ def _apply(cls, b, op, t, generic, grp=False):
         ix = _pyobj(op["obj"]) if "obj" in op else _index(op.get("form", "list"), op["idx"])
         return b.delete(ix, axis=-2) if generic else b.delete_taxa(ix)
     if k == "insert":
-        vals, kw = _operand(cls, op["vals"], t, grp)
+        vals, kw = _operand(cls, op["vals"], t, grp, notaxa, b)
         if "obj" in op:
             pos = _pyobj(op["obj"])
         else:
             pos = int(op["k"]) if op.get("kform") == "int" else [int(op["k"])]
         return b.insert(pos, vals, axis=0, **kw) if generic else b.insert_taxa(pos, vals, **kw)
     if k == "adjoin":
-        vals, kw = _operand(cls, op["vals"], t, grp)
+        vals, kw = _operand(cls, op["vals"], t, grp, notaxa, b)
         return b.adjoin(vals, axis=0, **kw) if generic else b.adjoin_taxa(vals, **kw)
     if k == "reorder":
         b.reorder_taxa(numpy.array(op["idx"], dtype=int))
@@ -176,19 +233,19 @@ def _apply(cls, b, op, t, generic, grp=False):
             b.remove_taxa(ix)
         return b
     if k == "append":
-        vals, kw = _operand(cls, op["vals"], t, grp)
+        vals, kw = _operand(cls, op["vals"], t, grp, notaxa, b)
         if generic:
             b.append(vals, axis=0, **kw)
         else:
             b.append_taxa(vals, **kw)
         return b
     if k == "incorp":
-        vals, kw = _operand(cls, op["vals"], t, grp)
+        vals, kw = _operand(cls, op["vals"], t, grp, notaxa, b)
         pos = int(op["k"]) if op.get("kform") == "int" else [int(op["k"])]
         b.incorp_taxa(pos, vals, **kw)
         return b
     if k == "concat":
-        others = [cls.from_numpy(_np_rows(o["rows"], t), taxa=_names(o["taxa"]),
+        others = [cls.from_numpy(_np_rows(o["rows"], t), taxa=None if notaxa else _names(o["taxa"]),
                                  taxa_grp=_grps(o["taxa"]) if grp else None) for o in op["others"]]
         return cls.concat([b] + others, axis=0) if generic else cls.concat_taxa([b] + others)
     raise ValueError(k)
@@ -202,7 +259,8 @@ def _lean_op(op, t):
         return {"op": k, "idx": list(op["idx"])}
     if k in ("insert", "incorp", "adjoin", "append"):
         v = op["vals"]
-        d = {"op": k, "vals": {"as": v["as"], "cols": _cols(v["rows"], t), "taxa": v["taxa"]}}
+        d = {"op": k, "vals": {"as": "self"} if v["as"] == "self" else
+             {"as": v["as"], "cols": _cols(v["rows"], t), "taxa": v["taxa"]}}
         if "k" in op:
             d["k"] = op["k"]
         if "obj" in op:
@@ -237,35 +295,62 @@ def _mag(cols):
     return float(m)
 
 
+ALL_STYLES = ["int", "int", "dyadic", "offset", "two", "ties", "constant", "huge", "constnan", "tiny", "off25k"]
+QUIET_STYLES = ["int", "dyadic", "offset", "tiny", "off25k"]
+# kinds whose correspondence comparison does not track conditioning (|x| / deviation) stay with these
+BASE_STYLES = ["int", "int", "dyadic", "offset", "two", "ties", "constant", "huge", "constnan"]
+
+
 class C15(Prop):
     PID = "C15"
     MODULE = "PybropsModel.Props.C15"
     N_QUICK = 450
     N_THOROUGH = 6000
-    RULE = ("raw matrices of 1-12 (occasionally 49/98/103) taxa x 1-4 traits over integers / dyadic rationals "
-            "with constant columns (also constant among the observed taxa with NaN), NaN entries (also whole NaN "
-            "columns), offsets of 1e6 and of 1e9 with spread 0.5, ties for the "
-            "arg-extrema; built with from_numpy in the three classes; histories of 0-5 taxa operations "
-            "(select with repeats and negative positions / delete by int, list, slice, boolean mask / insert at one or "
-            "several positions, one value each or one broadcast / adjoin, with ndarray or matrix operands, "
-            "taxa_grp present or absent, in-place reorder between unscale() calls; a "
+    RULE = ("kind history (70 %): raw matrices of 1-12 (occasionally 49/98/103/130) taxa x 1-4 traits over integers / dyadic "
+            "rationals with constant columns (also constant among the observed taxa with NaN), NaN entries (also whole NaN "
+            "columns), offsets of 1e6, of 1e9 with spread 0.5 and of 25000 with differences of 1e-3, spreads of 1e-9, "
+            "ties for the arg-extrema; C / Fortran / strided memory layout (also of operands); built with from_numpy in "
+            "the three classes, with or without taxa labels; histories of 0-5 taxa operations "
+            "(select with repeats, negative positions, the identity / delete by int, list, slice, boolean mask / insert at one or "
+            "several positions, one value each or one broadcast / adjoin, with ndarray, matrix, SUBCLASS-matrix operands or "
+            "the matrix ITSELF as operand, taxa_grp present or absent, copy / deepcopy, in-place reorder / sort_taxa / "
+            "group_taxa, read-only select_taxa probes repeated after an in-place edit; a "
             "separate stream with the inherited in-place append/remove/incorp and concat_taxa; a malformed "
             "stream with bad positions / trait counts); after every step unscale(), location, scale, the "
-            "stored matrix and all eight statistics (unscale=True and False) are observed.  A separate kind "
-            "drives DenseScaledMatrix.transform/untransform/rescale/unscale; the thorough tier adds the complete "
-            "enumeration of histories of length <= 2 over ~30 operations on a fixed 4 x 2 matrix.  Non-trivial = at least 2 taxa, "
+            "stored matrix and all eight statistics (unscale=True and False) are observed on the SAME object, the caller's "
+            "input arrays are overwritten after use, and after every copy-on-manipulation step the operand's arrays and an "
+            "array returned by unscale() are overwritten (two-object aliasing).  kind state (14 %): ONE object and 1-5 direct "
+            "edits (element write, mat / location / scale re-assigned incl. scale 0, in-place remove / reorder / sort / append / "
+            "incorp) with the full query after each.  kind scaledh (12 %): DenseScaledMatrix of 2 or 3 axes, C / F / strided, "
+            "parameters given as float arrays, INTEGER arrays, Python float / int scalars or defaulted, and 1-6 calls of "
+            "transform / untransform (new array or an array already held, also self.mat; copy True / False) and rescale / "
+            "unscale (inplace True / False), identities and contents of all reachable arrays observed after each call.  "
+            "kind scaled (4 %): the fixed round-2 script.  Thorough tier adds the complete "
+            "enumeration of histories of length <= 2 over ~30 operations on a fixed 4 x 2 matrix and of all DenseScaledMatrix "
+            "call sequences of length <= 3 over 8 calls.  Non-trivial = at least 2 taxa, "
             "a non-constant trait and (history) at least one operation that succeeded")
     TRUSTED = ["numpy.sqrt: the model runs with a 30-digit rational square root; the theorems hold for "
-               "every function `sq`, the unit-variance / tvar ones under sq(x)^2 = x",
-               "numpy's axis-0 primitives act column by column (the model is trait-major)",
+               "every function `sq`, the unit-variance / tstd / tvar ones under the square-root contract",
+               "numpy's axis-0 primitives act column by column (the model is trait-major); a DenseScaledMatrix of more than "
+               "two axes is its (-1, t) reshape",
                "taxa / taxa_grp labels: observed after every step (taxa_grp = identity mod 3 must travel with its taxon); "
-               "the label machinery itself is C03's",
+               "the label machinery itself is C03's; sort_taxa / group_taxa enter the model as the reordering by "
+               "lexsort((taxa, taxa_grp)) recomputed by the harness from the labels observed before the call",
                "numpy index normalisation (negative / slice / mask / several insert positions): C03's normalisers "
-               "LabelMat.normIdxs / DelIdx.norm / insPlan, compared with numpy through the correspondence"]
-    ASSUMPTIONS = ["finite inputs are integers or dyadic rationals (|x| <= ~1e6) so float results are within "
-                   "1e-9 relative / 1e-12*(1+max|x|) absolute of the exact value",
+               "LabelMat.normIdxs / DelIdx.norm / insPlan, compared with numpy through the correspondence",
+               "array identity is observed with Python's `is` on the arrays the harness can reach (constructor arguments, "
+               "attributes, arguments and results of every call); views into the same buffer are not identified",
+               "which of the two models the history correspondence uses (code as is / the proposed D23-D25 overrides "
+               "`applyOpRepaired`) follows from whether DenseBreedingValueMatrix itself defines append_taxa, incorp_taxa, "
+               "remove_taxa and concat_taxa"]
+    ASSUMPTIONS = ["finite inputs are integers or dyadic rationals (|x| <= ~1e9) so float results are within "
+                   "1e-9 relative / 1e-12*(1+max|x|) absolute of the exact value (times |x|/deviation for standardised values)",
                    "NaN is the only non-finite input; several insert positions are given sorted (unsorted: not modelled)",
-                   "statistics are not requested on a matrix with 0 taxa (numpy raises there)"]
+                   "statistics are not requested on a matrix with 0 taxa (numpy raises there)",
+                   "kind state / the `self:` clauses: for a trait with a NaN location or scale only the unscaling formula "
+                   "is judged (unscale() is NaN throughout, the statistics come from the stored column)",
+                   "DenseScaledMatrix: location and scale are two different arrays, scale entries are non-zero, transform / "
+                   "untransform arguments are matrix-shaped float arrays"]
 
     # ------------------------------------------------------------------ corpus
     def corpus(self):
@@ -273,6 +358,7 @@ class C15(Prop):
         A = [[1, 5, 7], [2, 5, "nan"], [4, 5, 9]]
         B = [[10, 50, 70], [20, 60, 80]]
         nc = [[1, 7], [2, 3], [4, 9]]          # no constant trait, no NaN
+        A_2 = [[1, 5], [2, 5], ["nan", 5]]
         nb = [[10, 70], [20, 80]]
         h = lambda **kw: dict({"kind": "history", "cls": "BV", "generic": False}, **kw)
         return [
@@ -321,6 +407,44 @@ class C15(Prop):
             h(ntrait=2, rows=nc, taxa=[0, 1, 2], ops=[{"op": "select", "idx": [3]}]),            # rejected
             h(ntrait=2, rows=nc, taxa=[0, 1, 2],
               ops=[{"op": "adjoin", "vals": {"as": "nd", "rows": [[1, 2, 3]], "taxa": [3], "ntrait": 3}}]),
+            # round 3: "nothing to do" requests still hand out a matrix of their own
+            h(ntrait=2, rows=nc, taxa=[0, 1, 2], ops=[{"op": "select", "idx": [0, 1, 2]}, {"op": "reorder", "idx": [2, 0, 1]}]),
+            h(ntrait=2, rows=nc, taxa=[0, 1, 2], ops=[{"op": "delete", "idx": []}, {"op": "reorder", "idx": [1, 2, 0]}]),
+            h(ntrait=2, rows=nc, taxa=[0, 1, 2], ops=[{"op": "copy", "how": "method"}, {"op": "sort", "group": False},
+                                                       {"op": "deepcopy", "how": "module"}], layout="F"),
+            # small spreads and a common offset: 1e-9 differences, 25000 + 1e-3 differences
+            h(ntrait=2, rows=[["1/1073741824", "25600001/1024"], ["-3/1073741824", "25600003/1024"],
+                              ["5/1073741824", "25600007/1024"]], taxa=[0, 1, 2], ops=[{"op": "select", "idx": [2, 0]}]),
+            # an operand of a subclass, a strided operand, no taxa labels at all
+            h(ntrait=2, rows=nc, taxa=[0, 1, 2],
+              ops=[{"op": "adjoin", "vals": {"as": "bv", "cls": "GEBV", "rows": nb, "taxa": [3, 4]}},
+                   {"op": "insert", "k": 2, "kform": "list", "vals": {"as": "nd", "rows": nb, "taxa": [5, 6], "layout": "strided"}}]),
+            h(ntrait=2, rows=nc, taxa=[0, 1, 2], notaxa=True, layout="strided",
+              ops=[{"op": "select", "idx": [2, 0]}, {"op": "adjoin", "vals": {"as": "nd", "rows": nb, "taxa": [3, 4]}}]),
+            # one object, queried after each direct edit (the clauses that hold in every state)
+            {"kind": "state", "cls": "BV", "generic": False, "grp": True, "ntrait": 2, "rows": nc + [[8, 1]], "taxa": [0, 1, 2, 3],
+             "edits": [{"e": "op", "op": "remove", "idx": [0, 1], "form": "list"}, {"e": "setitem", "j": 1, "i": 0, "v": "5/2"},
+                       {"e": "setloc", "loc": [100, "-7/4"]}, {"e": "setscale", "scale": [2, "1/2"]},
+                       {"e": "op", "op": "append", "vals": {"as": "nd", "rows": nb, "taxa": [4, 5]}},
+                       {"e": "op", "op": "reorder", "idx": [3, 0, 2, 1]}]},
+            {"kind": "state", "cls": "EBV", "generic": True, "grp": False, "ntrait": 1, "rows": [[4], [5], [9]], "taxa": [0, 1, 2],
+             "edits": [{"e": "setmat", "rows": [[3], [3], ["nan"]]}, {"e": "op", "op": "remove", "idx": [1], "form": "int"},
+                       {"e": "op", "op": "incorp", "k": 1, "kform": "int", "vals": {"as": "bv", "rows": [[7], [11]], "taxa": [3, 4]}}]},
+            # DenseScaledMatrix call histories: integer parameter arrays, Python-int parameters, three axes
+            {"kind": "scaledh", "ntrait": 2, "rows": nc + [[8, 1]], "form": "int_array", "loc": [1, -2], "scale": [2, 1],
+             "steps": [{"op": "rescale", "inplace": True}, {"op": "unscale", "inplace": False},
+                       {"op": "transform", "copy": True, "new": nc + [[0, 0]]}, {"op": "untransform", "copy": False, "ref": 5},
+                       {"op": "unscale", "inplace": True}, {"op": "rescale", "inplace": False}]},
+            {"kind": "scaledh", "ntrait": 1, "rows": [[1], [3], [3], [9]], "form": "int_scalar", "loc": [0], "scale": [1],
+             "shape": [2, 2], "layout": "F",
+             "steps": [{"op": "rescale", "inplace": True}, {"op": "transform", "copy": False, "ref": 0},
+                       {"op": "unscale", "inplace": True}]},
+            {"kind": "scaledh", "ntrait": 2, "rows": A_2 , "form": "default", "loc": [0, 0], "scale": [1, 1],
+             "steps": [{"op": "rescale", "inplace": False}, {"op": "rescale", "inplace": True},
+                       {"op": "untransform", "copy": True, "ref": 0}]},
+            # D26 in the second copy of the mechanism: DenseScaledMatrix.rescale on three times 0.1
+            {"kind": "scaledh", "ntrait": 1, "rows": [[f01], [f01], [f01]], "form": "default", "loc": [0], "scale": [1],
+             "steps": [{"op": "rescale", "inplace": True}]},
             {"kind": "scaled", "ntrait": 3, "rows": A, "loc": [1, 2, 3], "scale": [2, 4, 1], "x": [[3, 6, 4]]},
             {"kind": "scaled", "ntrait": 1, "rows": [[5], [5]], "loc": [0], "scale": [1], "x": [[1], ["nan"]]},
         ]
@@ -338,6 +462,10 @@ class C15(Prop):
         elif style == "huge":           # offset 1e9 with a spread of 0.5: one-pass variance formulas cancel
             base = rng.choice([10 ** 9, -10 ** 9])
             c = [base + rng.choice([Fraction(-1, 2), 0, Fraction(1, 2)]) for _ in range(n)]
+        elif style == "tiny":           # spread of 1e-9 .. 1e-8: below numpy.isclose's default atol
+            c = [Fraction(rng.randint(-9, 9), 2 ** 30) for _ in range(n)]
+        elif style == "off25k":         # common offset 25000 with differences of 1e-3 .. 1e-2
+            c = [25000 + Fraction(rng.randint(0, 12), 1024) for _ in range(n)]
         elif style == "constnan":       # constant among the observed taxa, with missing values
             v = rng.choice([0, 5, -3, Fraction(7, 4), Fraction(15, 2)])
             c = [v] * n
@@ -355,14 +483,14 @@ class C15(Prop):
             raise ValueError(style)
         return c
 
-    def _rows(self, rng, n, t, nan_ok=True, const_ok=True, styles=None):
+    def _rows(self, rng, n, t, nan_ok=True, const_ok=True, styles=None, pool=None):
         """n x t canonical rows.  `const_ok=False` ("quiet"): every column has pairwise distinct finite
         values and at most one NaN, so that no sub-selection of >= 2 taxa is a constant trait.
         `styles` fixes the style per column (operands follow the matrix they are combined with)."""
         cols = []
         for j in range(t):
             if const_ok:
-                st = styles[j] if styles else rng.choice(["int", "int", "dyadic", "offset", "two", "ties", "constant", "huge", "constnan"])
+                st = styles[j] if styles else rng.choice(pool or ALL_STYLES)
                 c = self._column(rng, n, st)
                 r = rng.random()
                 if nan_ok and r < 0.18 and n >= 1:
@@ -371,11 +499,15 @@ class C15(Prop):
                 elif nan_ok and r < 0.21:
                     c = ["nan"] * n
             else:
-                st = styles[j] if styles else rng.choice(["int", "dyadic", "offset"])
+                st = styles[j] if styles else rng.choice(QUIET_STYLES)
                 if st == "int":
-                    c = rng.sample(range(-60, 61), n) if n <= 121 else list(range(n))
+                    c = rng.sample(range(-max(60, n), max(60, n) + 1), n)
                 elif st == "dyadic":
                     c = [Fraction(v, 4) for v in rng.sample(range(-200, 201), n)]
+                elif st == "tiny":
+                    c = [Fraction(v, 2 ** 30) for v in rng.sample(range(-max(60, n), max(60, n) + 1), n)]
+                elif st == "off25k":
+                    c = [25000 + Fraction(v, 1024) for v in rng.sample(range(0, max(60, 2 * n)), n)]
                 else:
                     base = rng.choice([10 ** 6, -10 ** 6, 123456, 10 ** 9])
                     c = [base + Fraction(v, 2) for v in rng.sample(range(0, max(40, 2 * n)), n)]
@@ -390,17 +522,17 @@ class C15(Prop):
         quiet = rng.random() < 0.7      # no constant trait can arise (kept from the time D9 was open: constant traits are the other 30 %)
         n = rng.choice([2, 3, 3, 4, 4, 5, 6, 8, 12]) if quiet else rng.choice([1, 2, 2, 3, 3, 4, 4, 5, 6, 8, 12])
         if rng.random() < (0.03 if tier == "quick" else 0.05):
-            n = rng.choice([49, 98, 103])
+            n = rng.choice([49, 98, 103, 130])
         t = rng.choice([1, 1, 2, 2, 3, 4])
-        styles = [rng.choice(["int", "dyadic", "offset"] if quiet else
-                             ["int", "int", "dyadic", "offset", "two", "ties", "constant", "huge", "constnan"])
-                  for _ in range(t)]
+        styles = [rng.choice(QUIET_STYLES if quiet else ALL_STYLES) for _ in range(t)]
+        cls_name = rng.choice(["BV", "BV", "BV", "EBV", "GEBV"])
+        notaxa = rng.random() < 0.06
         rows = self._rows(rng, n, t, const_ok=not quiet, styles=styles)
         taxa = list(range(n))
         fresh = [n]
         lo = 2 if quiet else 0          # quiet histories never drop below two taxa
 
-        def operand(k=None, bad_t=False):
+        def operand(k=None, bad_t=False, allow_self=False):
             m = k if k is not None else rng.choice([1, 1, 2, 3])
             tt = t + 1 if bad_t else t
             ids = list(range(fresh[0], fresh[0] + m))
@@ -410,6 +542,14 @@ class C15(Prop):
                 st = None               # operand on another scale than the matrix (1e6 next to units)
             d = {"as": rng.choice(["bv", "nd"]), "rows": self._rows(rng, m, tt, const_ok=not quiet, styles=st),
                  "taxa": ids}
+            lay = rng.choice(["C", "C", "C", "F", "strided"])
+            if lay != "C":
+                d["layout"] = lay
+            if d["as"] == "bv" and cls_name == "BV" and rng.random() < 0.25:
+                d["cls"] = rng.choice(["EBV", "GEBV"])       # an operand of a subclass is an operand
+            if allow_self and rng.random() < 0.07:
+                d = {"as": "self"}                           # the matrix joined to itself
+                fresh[0] -= m
             if bad_t:
                 d["ntrait"] = tt
             return d
@@ -421,17 +561,41 @@ class C15(Prop):
             good = ["select", "delete", "insert", "adjoin", "reorder"]
             kinds = good if profile != "inherited" else good + ["append", "remove", "incorp", "concat"] * 2
             k = rng.choice(kinds)
+            if rng.random() < 0.12:
+                k = rng.choice(["copy", "deepcopy"] if notaxa else ["copy", "deepcopy", "sort", "sort"])
             if cur == 0 and k in ("select", "delete", "reorder", "remove"):
                 k = "adjoin"
-            if k == "select":
+            if cur >= 2 and rng.random() < 0.06:
+                # the same read-only request before and after an in-place edit of the object
+                pidx = [rng.randrange(cur) for _ in range(rng.randint(2, 4))]
+                if quiet and len(set(pidx)) < 2:
+                    pidx[0] = (pidx[-1] + 1) % cur
+                p2 = list(range(cur))
+                while p2 == list(range(cur)):
+                    rng.shuffle(p2)
+                ops += [{"op": "probe", "idx": pidx}, {"op": "reorder", "idx": p2}, {"op": "probe", "idx": pidx}]
+                continue
+            if k in ("copy", "deepcopy"):
+                ops.append({"op": k, "how": rng.choice(["method", "module"])})
+            elif k == "sort":
+                ops.append({"op": k, "group": rng.random() < 0.5})
+            elif k == "select":
                 m = rng.randint(max(1, lo), min(cur + 2, 14))
                 idx = [rng.randrange(cur) for _ in range(m)]
                 if quiet and len(set(idx)) < 2:
                     idx[0] = (idx[-1] + 1) % cur
+                if rng.random() < 0.1:           # everything, in order: "nothing to do" is still a copy
+                    idx, m = list(range(cur)), cur
                 if rng.random() < 0.35:          # negative positions count from the end
                     idx = [i - cur if rng.random() < 0.5 else i for i in idx]
                 ops.append({"op": k, "idx": idx, "form": rng.choice(["list", "array"])})
                 cur = m
+                if idx == list(range(cur)) and cur >= 2 and rng.random() < 0.7:
+                    # ... and the operand must not notice what is done to the result afterwards
+                    p2 = list(range(cur))
+                    while p2 == list(range(cur)):
+                        rng.shuffle(p2)
+                    ops.append({"op": "reorder", "idx": p2})
             elif k in ("delete", "remove"):
                 if cur <= max(1, lo):
                     idx = [0] if (cur == 1 and not quiet and rng.random() < 0.15) else []
@@ -470,11 +634,11 @@ class C15(Prop):
                 ops.append(op)
                 cur -= len(set(idx))
             elif k in ("insert", "incorp"):
-                v = operand()
+                v = operand(allow_self=cur >= 1 and cur <= 12)
                 op = {"op": k, "k": rng.randint(0, cur), "kform": rng.choice(["int", "list"]), "vals": v}
-                q = len(v["taxa"])
+                q = cur if v["as"] == "self" else len(v["taxa"])
                 added = q
-                if k == "insert" and rng.random() < 0.5:
+                if k == "insert" and v["as"] != "self" and rng.random() < 0.5:
                     r2 = rng.random()
                     neg = lambda p: p - cur if (p < cur and rng.random() < 0.4) else p
                     if r2 < 0.25:
@@ -494,9 +658,9 @@ class C15(Prop):
                 ops.append(op)
                 cur += added
             elif k in ("adjoin", "append"):
-                v = operand()
+                v = operand(allow_self=cur >= 1 and cur <= 12)
                 ops.append({"op": k, "vals": v})
-                cur += len(v["taxa"])
+                cur += cur if v["as"] == "self" else len(v["taxa"])
             elif k == "reorder":
                 idx = list(range(cur))
                 rng.shuffle(idx)
@@ -525,23 +689,147 @@ class C15(Prop):
             else:
                 ops.append({"op": rng.choice(["adjoin", "insert"]), "k": 0, "kform": "list",
                             "vals": operand(bad_t=True)})
-        return {"kind": "history", "cls": rng.choice(["BV", "BV", "BV", "EBV", "GEBV"]),
-                "generic": rng.random() < 0.3, "grp": rng.random() < 0.6, "ntrait": t, "rows": rows, "taxa": taxa,
-                "ops": ops}
+        case = {"kind": "history", "cls": cls_name,
+                "generic": rng.random() < 0.3, "grp": rng.random() < 0.6 and not notaxa, "ntrait": t, "rows": rows,
+                "taxa": taxa, "ops": ops}
+        lay = rng.choice(["C", "C", "C", "F", "strided"])
+        if lay != "C":
+            case["layout"] = lay
+        if notaxa:
+            case["notaxa"] = True
+        return case
+
+    def _state(self, rng):
+        """ONE object: from_numpy, then 1-5 direct edits with a full query after each"""
+        n = rng.choice([2, 3, 3, 4, 5, 6, 8])
+        t = rng.choice([1, 2, 2, 3])
+        rows = self._rows(rng, n, t, pool=BASE_STYLES)
+        fresh = [n]
+        cur = n
+        edits = []
+        val = lambda: canon.enc(rng.choice([0, 1, -1, 2, Fraction(1, 2), Fraction(-7, 4), 3, 10, Fraction(5, 8)]))
+        for _ in range(rng.choice([1, 2, 2, 3, 3, 4, 5])):
+            k = rng.choice(["setitem", "setitem", "setmat", "setloc", "setscale", "remove", "remove", "reorder",
+                            "append", "incorp", "sort"])
+            if k == "setitem":
+                edits.append({"e": k, "j": rng.randrange(t), "i": rng.randrange(cur),
+                              "v": "nan" if rng.random() < 0.12 else val()})
+            elif k == "setmat":
+                edits.append({"e": k, "rows": self._rows(rng, cur, t, styles=[rng.choice(["int", "dyadic", "two", "ties", "constant"])
+                                                                         for _ in range(t)])})
+            elif k == "setloc":
+                edits.append({"e": k, "loc": [canon.enc(rng.choice([0, 1, -2, Fraction(1, 2), 10 ** 6, Fraction(-7, 4), 100]))
+                                              for _ in range(t)]})
+            elif k == "setscale":
+                edits.append({"e": k, "scale": [canon.enc(rng.choice([1, 2, 4, Fraction(1, 2), 3, Fraction(5, 4), 10, 10,
+                                                                      0 if rng.random() < 0.3 else 1]))
+                                                for _ in range(t)]})
+            elif k == "remove":
+                if cur <= 1:
+                    continue
+                idx = rng.sample(range(cur), rng.randint(1, cur - 1))
+                form = "list"
+                if len(idx) == 1 and rng.random() < 0.4:
+                    form = "int"
+                elif sorted(idx) == list(range(min(idx), max(idx) + 1)) and rng.random() < 0.5:
+                    idx, form = sorted(idx), "slice"
+                edits.append({"e": "op", "op": "remove", "idx": idx, "form": form})
+                cur -= len(idx)
+            elif k == "reorder":
+                idx = list(range(cur))
+                rng.shuffle(idx)
+                edits.append({"e": "op", "op": "reorder", "idx": idx})
+            elif k == "sort":
+                edits.append({"e": "op", "op": "sort", "group": rng.random() < 0.5})
+            else:
+                m = rng.choice([1, 1, 2, 3])
+                v = {"as": rng.choice(["nd", "nd", "bv"]), "rows": self._rows(rng, m, t, pool=["int", "dyadic", "two", "ties", "constant"]),
+                     "taxa": list(range(fresh[0], fresh[0] + m))}
+                fresh[0] += m
+                e = {"e": "op", "op": k, "vals": v}
+                if k == "incorp":
+                    e["k"] = rng.randint(0, cur)
+                    e["kform"] = rng.choice(["int", "list"])
+                edits.append(e)
+                cur += m
+        return {"kind": "state", "cls": rng.choice(["BV", "BV", "EBV", "GEBV"]), "generic": rng.random() < 0.3,
+                "grp": rng.random() < 0.5, "ntrait": t, "rows": rows, "taxa": list(range(n)), "edits": edits}
+
+    def _scaledh(self, rng):
+        """a DenseScaledMatrix object and 1-6 calls of transform / untransform / rescale / unscale"""
+        n = rng.choice([1, 2, 3, 4, 4, 6, 6])
+        t = rng.choice([1, 2, 3])
+        rows = self._rows(rng, n, t)
+        form = rng.choice(["array", "array", "int_array", "int_array", "scalar", "int_scalar", "int_scalar", "default"])
+        if form in ("int_array", "int_scalar"):
+            loc = [rng.choice([0, 0, 1, -2, 5, 1000]) for _ in range(t)]
+            scale = [rng.choice([1, 1, 2, 3, 4]) for _ in range(t)]
+        elif form == "default":
+            loc, scale = [0] * t, [1] * t
+        else:
+            loc = [rng.choice([0, 1, -2, Fraction(1, 2), 10 ** 6, Fraction(-7, 4)]) for _ in range(t)]
+            scale = [rng.choice([1, 2, 4, Fraction(1, 2), 3, Fraction(5, 4)]) for _ in range(t)]
+        if form in ("scalar", "int_scalar"):
+            loc, scale = [loc[0]] * t, [scale[0]] * t
+        case = {"kind": "scaledh", "ntrait": t, "rows": rows, "form": form, "loc": [canon.enc(v) for v in loc],
+                "scale": [canon.enc(v) for v in scale]}
+        if n in (4, 6) and rng.random() < 0.3:
+            case["shape"] = [2, n // 2]
+        lay = rng.choice(["C", "C", "F", "strided"])
+        if lay != "C":
+            case["layout"] = lay
+        mats, nxt = [0], 3           # identities of the matrix-shaped arrays, next identity
+        steps = []
+        for _ in range(rng.choice([1, 2, 3, 3, 4, 5, 6])):
+            k = rng.choice(["transform", "untransform", "rescale", "rescale", "unscale", "unscale"])
+            if k in ("transform", "untransform"):
+                st = {"op": k, "copy": rng.random() < 0.5}
+                if rng.random() < 0.6:
+                    st["new"] = self._rows(rng, n, t)
+                    lay = rng.choice(["C", "C", "F", "strided"])
+                    if lay != "C":
+                        st["layout"] = lay
+                    xi = nxt
+                    mats.append(nxt)
+                    nxt += 1
+                else:
+                    xi = rng.choice(mats)
+                    st["ref"] = xi
+                if st["copy"]:
+                    mats.append(nxt)
+                    nxt += 1
+            else:
+                st = {"op": k, "inplace": rng.random() < 0.6}
+                if not st["inplace"]:
+                    mats.append(nxt)
+                    nxt += 1
+                elif k == "rescale":
+                    nxt += 2
+            steps.append(st)
+        case["steps"] = steps
+        return case
 
     def _scaled(self, rng):
         n = rng.choice([1, 2, 3, 4, 6])
         t = rng.choice([1, 2, 3])
-        rows = self._rows(rng, n, t)
+        rows = self._rows(rng, n, t, pool=BASE_STYLES)
         loc = [canon.enc(rng.choice([0, 1, -2, Fraction(1, 2), 10 ** 6, Fraction(-7, 4)])) for _ in range(t)]
         scale = [canon.enc(rng.choice([1, 2, 4, Fraction(1, 2), 3, Fraction(5, 4)])) for _ in range(t)]
-        x = self._rows(rng, rng.choice([1, 2, 3]), t)
+        x = self._rows(rng, rng.choice([1, 2, 3]), t, pool=BASE_STYLES)
         return {"kind": "scaled", "ntrait": t, "rows": rows, "loc": loc, "scale": scale, "x": x}
 
     def generate(self, rng, n, tier):
         out = []
         for _ in range(n):
-            out.append(self._scaled(rng) if rng.random() < 0.12 else self._history(rng, tier))
+            r = rng.random()
+            if r < 0.04:
+                out.append(self._scaled(rng))
+            elif r < 0.16:
+                out.append(self._scaledh(rng))
+            elif r < 0.30:
+                out.append(self._state(rng))
+            else:
+                out.append(self._history(rng, tier))
         return out
 
     def exhaustive(self, tier):
@@ -565,6 +853,22 @@ class C15(Prop):
             return {"select": 3, "delete": n - 1, "insert": n + 1, "adjoin": n + 1, "reorder": n}[op["op"]]
 
         out = []
+        calls = [{"op": "rescale", "inplace": True}, {"op": "rescale", "inplace": False},
+                 {"op": "unscale", "inplace": True}, {"op": "unscale", "inplace": False},
+                 {"op": "transform", "copy": True, "new": [[3, "nan"], [1, 2], ["-5/2", 4]]},
+                 {"op": "transform", "copy": False, "new": [[3, "nan"], [1, 2], ["-5/2", 4]]},
+                 {"op": "untransform", "copy": True, "ref": 0}, {"op": "untransform", "copy": False, "ref": 0}]
+        seqs = [[a] for a in calls] + [[a, b] for a in calls for b in calls] + \
+               [[a, b, c] for a in calls for b in calls for c in calls]
+        for k, sq in enumerate(seqs):
+            out.append({"kind": "scaledh", "ntrait": 2, "rows": [[1, 5], [3, 5], [8, "nan"]],
+                        "form": ["int_array", "array", "int_scalar"][k % 3], "loc": [1, 1], "scale": [2, 2], "steps": sq})
+        # one matrix past 1024 taxa (block sizes): small integers, one NaN
+        big = [[(i * 37) % 101 - 50] for i in range(1030)]
+        big[1027] = ["nan"]
+        out.append({"kind": "history", "cls": "BV", "generic": False, "grp": True, "ntrait": 1, "rows": big,
+                    "taxa": list(range(1030)), "ops": [{"op": "delete", "obj": {"kind": "slice", "a": 3, "b": 1026, "c": None}},
+                                                       {"op": "select", "idx": [6, 0, 5, 5]}]})
         for a in alphabet(4, 4):
             out.append({"kind": "history", "cls": "BV", "generic": False, "ntrait": 2, "rows": rows,
                         "taxa": [0, 1, 2, 3], "ops": [a]})
@@ -577,24 +881,169 @@ class C15(Prop):
     def run_impl(self, case):
         if case["kind"] == "scaled":
             return self._run_scaled(case)
+        if case["kind"] == "scaledh":
+            return self._run_scaledh(case)
+        if case["kind"] == "state":
+            return self._run_state(case)
         classes = _classes()
         cls = classes[case["cls"]]
         t = case["ntrait"]
-        raw = _np_rows(case["rows"], t)
+        notaxa = bool(case.get("notaxa"))
+        raw = _layout(_np_rows(case["rows"], t), case.get("layout"))
         raw0 = raw.copy()
         grp = bool(case.get("grp"))
-        b = cls.from_numpy(raw, taxa=_names(case["taxa"]), taxa_grp=_grps(case["taxa"]) if grp else None)
+        b = cls.from_numpy(raw, taxa=None if notaxa else _names(case["taxa"]),
+                           taxa_grp=_grps(case["taxa"]) if grp else None)
+        same = bool(_same(raw0, raw))
+        raw[...] = 31337.0            # the caller's array is the caller's: overwriting it must not reach the matrix
         steps = [_snap(b)]
-        for op in case["ops"]:
+        alias = []                    # (step, what) — two-object aliasing observed along the history
+        watch = []
+        def settle(obj):
+            # the caller of a copy-on-manipulation method still holds the operand and expects what it held then
+            for w in list(watch):
+                if obj is None or w[1] is obj:
+                    watch.remove(w)
+                    if _enc_cols(w[1].unscale()) != w[2]:
+                        alias.append((w[0], "result_is_the_operand_and_was_edited_later"))
+
+        for i, op in enumerate(case["ops"]):
             tt = op.get("vals", {}).get("ntrait", t) if isinstance(op.get("vals"), dict) else t
+            prev = b
             try:
-                b = _apply(cls, b, op, tt, case.get("generic", False), grp)
+                b = _apply(cls, b, op, tt, case.get("generic", False), grp, notaxa)
+            except _ProbeMismatch as e:
+                alias.append((i + 1, "stale_answer_on_one_object"))
             except Exception as e:      # attributed to the operation by the judge
                 steps.append({"raised": canon.exc_tag(e), "text": f"{type(e).__name__}: {e}"[:200]})
                 break
             steps.append(_snap(b))
-        same = bool(((raw0 == raw) | (numpy.isnan(raw0) & numpy.isnan(raw))).all())
-        return {"steps": steps, "input_untouched": same}
+            if b is prev and op["op"] in ("select", "delete", "insert", "adjoin", "copy", "deepcopy", "concat"):
+                # the "new" matrix is the operand itself: whatever is done to it later is done to the operand
+                watch.append((i + 1, b, steps[-1]["unscale"]))
+            if b is not prev:
+                # a copy-on-manipulation result owns its data: the operand still reads as before, and writing
+                # into the operand's arrays (or into an array unscale() returned) does not reach the result
+                if _enc_cols(prev.unscale()) != steps[-2]["unscale"]:
+                    alias.append((i + 1, "operand_changed"))
+                settle(prev)
+                u = b.unscale()
+                u[...] = -271828.0
+                prev.mat[...] = 777.0
+                prev.location[...] = 55.0
+                prev.scale[...] = 3.0
+                if _enc_cols(b.unscale()) != steps[-1]["unscale"]:
+                    alias.append((i + 1, "shares_arrays_with_operand"))
+        settle(None)
+        if "raised" not in steps[-1]:
+            # the second way out: the table export on the original scale carries the values unscale() returns
+            try:
+                df = b.to_pandas(unscale=True)
+                cols = [c for c in df.columns if c not in ("taxa", "taxa_grp")]
+                tab = df[cols].to_numpy(dtype=float).reshape(b.mat.shape)
+                if _enc_cols(tab) != steps[-1]["unscale"]:
+                    alias.append((len(steps) - 1, "to_pandas_unscale_differs"))
+            except Exception as e:
+                alias.append((len(steps) - 1, "to_pandas_raised:" + type(e).__name__))
+        return {"steps": steps, "input_untouched": same, "alias": alias}
+
+    # ---- kind "state": ONE object, queried after every direct edit (class: prime a statistic, edit in
+    # place / re-assign an attribute / call an in-place routine, re-query)
+    def _run_state(self, case):
+        cls = _classes()[case["cls"]]
+        t = case["ntrait"]
+        grp = bool(case.get("grp"))
+        b = cls.from_numpy(_np_rows(case["rows"], t), taxa=_names(case["taxa"]),
+                           taxa_grp=_grps(case["taxa"]) if grp else None)
+        steps = [_snap(b)]
+        for e in case["edits"]:
+            try:
+                k = e["e"]
+                if k == "setitem":
+                    b.mat[e["i"], e["j"]] = _f(e["v"])
+                elif k == "setmat":
+                    b.mat = _np_rows(e["rows"], t)
+                elif k == "setloc":
+                    b.location = numpy.array([_f(v) for v in e["loc"]], dtype=float)
+                elif k == "setscale":
+                    b.scale = numpy.array([_f(v) for v in e["scale"]], dtype=float)
+                elif k == "op":
+                    r = _apply(cls, b, e, t, case.get("generic", False), grp)
+                    if r is not b:
+                        raise RuntimeError("in-place routine returned another object")
+                else:
+                    raise ValueError(k)
+            except Exception as ex:
+                steps.append({"raised": canon.exc_tag(ex), "text": f"{type(ex).__name__}: {ex}"[:200]})
+                break
+            steps.append(_snap(b))
+        return {"steps": steps}
+
+    # ---- kind "scaledh": a history of DenseScaledMatrix calls; every array the caller can reach keeps an
+    # identity (position in `held`), so that what each call returns and writes is observed, not assumed
+    def _run_scaledh(self, case):
+        _, _, _, m_sm, _ = _mods()
+        SM = m_sm.DenseScaledMatrix
+        t = case["ntrait"]
+        shape = case.get("shape")
+
+        def arr(rows):
+            a = _np_rows(rows, t)
+            if shape:
+                a = a.reshape(shape[0], shape[1], t)
+            return a
+
+        mat0 = _layout(arr(case["rows"]), case.get("layout"))
+        form = case.get("form", "array")
+        kw = {}
+        if form == "array":
+            kw = {"location": numpy.array([_f(v) for v in case["loc"]], dtype=float),
+                  "scale": numpy.array([_f(v) for v in case["scale"]], dtype=float)}
+        elif form == "int_array":
+            kw = {"location": numpy.array([int(Fraction(v)) for v in case["loc"]], dtype=int),
+                  "scale": numpy.array([int(Fraction(v)) for v in case["scale"]], dtype=int)}
+        elif form == "scalar":
+            kw = {"location": _f(case["loc"][0]), "scale": _f(case["scale"][0])}
+        elif form == "int_scalar":
+            kw = {"location": int(Fraction(case["loc"][0])), "scale": int(Fraction(case["scale"][0]))}
+        m = SM(mat0, **kw)
+        held = [m.mat, m.location, m.scale]
+        flags = {"binds_given_arrays": m.mat is mat0 and (form not in ("array", "int_array") or
+                                                          (m.location is kw["location"] and m.scale is kw["scale"]))}
+
+        def ident(a):
+            for i, h in enumerate(held):
+                if h is a:
+                    return i
+            held.append(a)
+            return len(held) - 1
+
+        def enc_arr(a):
+            a = numpy.asarray(a, dtype=float)
+            if a.ndim == 1:
+                return [[canon.enc(v)] for v in a]
+            return _enc_cols(a.reshape(-1, a.shape[-1]))
+
+        obs = []
+        for st in case["steps"]:
+            try:
+                k = st["op"]
+                if k in ("transform", "untransform"):
+                    x = _layout(arr(st["new"]), st.get("layout")) if "new" in st else held[st["ref"]]
+                    ident(x)
+                    res = getattr(m, k)(x, copy=bool(st["copy"]))
+                else:
+                    res = getattr(m, k)(inplace=bool(st["inplace"]))
+            except Exception as ex:
+                obs.append({"raised": canon.exc_tag(ex), "text": f"{type(ex).__name__}: {ex}"[:200]})
+                break
+            o = {"res": ident(res), "mat": ident(m.mat), "loc": ident(m.location), "scale": ident(m.scale)}
+            o["arrs"] = [enc_arr(a) for a in held]
+            if _has_inf(o["arrs"]):
+                o["arrs"] = _no_inf(o["arrs"])
+                o["nonfinite"] = True
+            obs.append(o)
+        return {"obs": obs, "flags": flags}
 
     def _run_scaled(self, case):
         _, _, _, m_sm, _ = _mods()
@@ -634,30 +1083,81 @@ class C15(Prop):
     # ------------------------------------------------------------------ model requests
     def requests(self, case, obs):
         t = case["ntrait"]
+        if case["kind"] == "state":
+            edits = []
+            for i, e in enumerate(case["edits"]):
+                if e["e"] == "op" and e["op"] == "sort":
+                    st = obs["steps"][i] if i < len(obs["steps"]) and "raised" not in obs["steps"][i] else None
+                    edits.append({"e": "op", "op": "reorder",
+                                  "idx": _sort_perm(st["taxa"], bool(case.get("grp"))) if st else []})
+                elif e["e"] == "setmat":
+                    edits.append({"e": "setmat", "cols": _cols(e["rows"], t)})
+                elif e["e"] == "op":
+                    edits.append(dict(_lean_op(e, t), e="op"))
+                else:
+                    edits.append(e)
+            base = {"cols": _cols(case["rows"], t), "taxa": case["taxa"], "edits": edits}
+            keep = ("taxa", "mat", "unscale", "loc", "scale", "targmax", "targmin", "nonfinite", *STATS)
+            ob = [{"raised": True} if "raised" in s else {k: s[k] for k in keep if k in s} for s in obs["steps"]]
+            return [dict(base, op="c15.state", needs_loc_scale=case["cls"] != "BV", repaired=_repaired()),
+                    dict(base, op="c15.spec_state", obs=ob)]
+        if case["kind"] == "scaledh":
+            steps = []
+            for st in case["steps"]:
+                d = {k: v for k, v in st.items() if k not in ("new", "layout")}
+                if "new" in st:
+                    d["new"] = _cols(st["new"], t)
+                steps.append(d)
+            base = {"arrs0": [_cols(case["rows"], t), [[v] for v in case["loc"]], [[v] for v in case["scale"]]],
+                    "steps": steps}
+            ob = [{"raised": True} if "raised" in o else {k: o[k] for k in ("res", "mat", "loc", "scale", "arrs")}
+                  for o in obs["obs"]]
+            return [dict(base, op="c15.scaledh"), dict(base, op="c15.spec_scaledh", obs=ob)]
         if case["kind"] == "scaled":
             base = {"mat": _cols(case["rows"], t), "loc": case["loc"], "scale": case["scale"],
                     "x": _cols(case["x"], t)}
             o = {k: obs[k] for k in ("untransform", "unscale_after_rescale", "rescale", "unscale_inplace")}
             return [dict(base, op="c15.scaled"), dict(base, op="c15.spec_scaled", obs=o)]
+        notaxa = bool(case.get("notaxa"))
         lean_ops = []
-        for op in case["ops"]:
+        for i, op in enumerate(case["ops"]):
             tt = op.get("vals", {}).get("ntrait", t) if isinstance(op.get("vals"), dict) else t
-            lean_ops.append(_lean_op(op, tt))
+            if op["op"] in ("copy", "deepcopy", "sort", "probe"):
+                # no model of their own: a copy is the identity on the content, sort_taxa()/group_taxa() the
+                # reordering by numpy.lexsort((taxa, taxa_grp)) of the labels the matrix holds at that point
+                st = obs["steps"][i] if i < len(obs["steps"]) and "raised" not in obs["steps"][i] else None
+                if st is None:
+                    idx = []
+                elif op["op"] == "sort":
+                    idx = _sort_perm(st["taxa"], bool(case.get("grp")))
+                else:
+                    idx = list(range(st["n"]))
+                lean_ops.append({"op": "reorder", "idx": idx})
+            else:
+                lean_ops.append(_lean_op(op, tt))
         base = {"cols": _cols(case["rows"], t), "taxa": case["taxa"], "ops": lean_ops}
         keep = ("taxa", "mat", "unscale", "loc", "scale", "targmax", "targmin", "nonfinite", *STATS)
         ob = []
         for s in obs["steps"]:
-            ob.append({"raised": True} if "raised" in s else {k: s[k] for k in keep if k in s})
-        return [dict(base, op="c15.history", needs_loc_scale=case["cls"] != "BV"),
-                dict(base, op="c15.spec", obs=ob)]
+            if "raised" in s:
+                ob.append({"raised": True})
+            else:
+                d = {k: s[k] for k in keep if k in s}
+                if d.get("taxa") is None:
+                    d["taxa"] = []
+                ob.append(d)
+        return [dict(base, op="c15.history", needs_loc_scale=case["cls"] != "BV", repaired=_repaired()),
+                dict(base, op="c15.spec", obs=ob, check_taxa=not notaxa)]
 
     @staticmethod
     def _corr_step(m, s, mag):
         """compare one model snapshot with one implementation snapshot; returns '' or what differs"""
         if s.get("nonfinite"):
             return "non-finite output"
-        if m["taxa"] != s["taxa"]:
+        if s["taxa"] is not None and m["taxa"] != s["taxa"]:
             return f"taxa: model {m['taxa']} vs impl {s['taxa']}"
+        if s.get("n", len(m["taxa"])) != len(m["taxa"]):
+            return f"taxa axis: model {len(m['taxa'])} rows vs impl {s.get('n')}"
         t = len(m["mat"])
         for key in ("mat", "unscale", "loc", "scale"):
             if len(s[key]) != t:
@@ -706,6 +1206,10 @@ class C15(Prop):
                 raise RuntimeError("driver error: " + a["err"])
         if case["kind"] == "scaled":
             return self._judge_scaled(case, obs, answers)
+        if case["kind"] == "state":
+            return self._judge_state(case, obs, answers)
+        if case["kind"] == "scaledh":
+            return self._judge_scaledh(case, obs, answers)
         model, verdicts = answers[0]["ok"], answers[1]["ok"]
         steps = obs["steps"]
         names = ["from_numpy"] + [op["op"] + "_taxa" for op in case["ops"]]
@@ -732,19 +1236,70 @@ class C15(Prop):
                 fails.append((i, c))
         if not obs.get("input_untouched", True):
             fails.append((0, "input_mutated"))
+        for i, what in obs.get("alias", []):
+            fails.append((i, "alias:" + what))
         # taxa_grp travels with the taxon (group = identity mod 3); absent iff never given
         for i, st in enumerate(steps):
             if "raised" in st or (i, "taxa") in fails:
                 continue
-            want = [x % 3 for x in st["taxa"]] if case.get("grp") else None
+            want = [x % 3 for x in st["taxa"]] if case.get("grp") and st["taxa"] is not None else None
+            if case.get("grp") and st["taxa"] is None:
+                continue
             if st.get("taxa_grp") != want and i < len(verdicts) and not verdicts[i].get("invalid_op"):
                 fails.append((i, "taxa"))
+        # ---- which failing clauses the known findings D23-D26 account for.  After an inherited in-place
+        # routine the location/scale are stale (D24/D25: the clauses about the stored representation and
+        # tmean, which returns the location); after append/incorp/concat the raw values themselves are lost
+        # (D23/D24: every clause that compares with the true raw values, from then on).  Everything else the
+        # as-is code still delivers in those states (theorems `*_any_state`), so any other failing clause is
+        # NOT explained — and in those states the statistics are additionally judged against the matrix's
+        # own unscale() (`self:` clauses), the only raw values left to compare with.
+        stale, lost = [False], [False]
+        rep = _repaired()
+        for k, op in enumerate(case["ops"]):
+            st, lo = stale[-1], lost[-1]
+            kind = op["op"]
+            if rep:
+                pass
+            elif kind in ("select", "delete", "insert", "adjoin"):
+                st = False
+            elif kind == "remove":
+                st = True
+            elif kind in ("append", "incorp", "concat"):
+                st, lo = True, True
+            stale.append(st)
+            lost.append(lo)
+        for i, v in enumerate(verdicts):
+            if i < len(stale) and (stale[i] or lost[i]) and not v.get("invalid_op"):
+                for c in v.get("self", []):
+                    fails.append((i, c))
+
+        def explained(f):
+            i, c = f
+            if c == "standardised:constant:inexact_mean":
+                return True                                   # D26
+            if i >= len(stale):
+                return False
+            if c == "raised":                                 # D23: concat_taxa of the estimated classes
+                return (not rep) and case["ops"][i - 1]["op"] == "concat" and case["cls"] != "BV" if i >= 1 else False
+            if c.startswith("self:"):
+                return stale[i] and c == "self:stat:tmean"
+            if c in ("raw", "standardised", "standardised:constant") or c.startswith("stat:"):
+                if lost[i]:
+                    return True
+                return stale[i] and c in ("standardised", "standardised:constant", "stat:tmean")
+            return False
+
         spec = not fails
         sig = None
         if fails:
-            order = lambda f: (f[1] in STATELESS, f[0], CLAUSE_ORDER.index(f[1]) if f[1] in CLAUSE_ORDER else -1)
-            i, c = sorted(fails, key=order)[0]
+            order = lambda f: (f[1] in STATELESS, f[0], CLAUSE_ORDER.index(f[1]) if f[1] in CLAUSE_ORDER else
+                               (-1 if not f[1].startswith("self:") else 99))
+            new = sorted([f for f in fails if not explained(f)], key=order)
+            i, c = new[0] if new else sorted(fails, key=order)[0]
             sig = {"site": names[i] if i < len(names) else "?", "cond": c, "step": i}
+            if new and any(explained(f) for f in fails):
+                sig["beyond_known"] = True
         n, t = len(case["rows"]), case["ntrait"]
         applied = sum(1 for s in steps[1:] if "raised" not in s)
         nonconst = any(len({r[j] for r in case["rows"] if r[j] != "nan"}) > 1 for j in range(t))
@@ -752,6 +1307,9 @@ class C15(Prop):
         detail = f"history[{case['cls']}] ops={[o['op'] for o in case['ops']]}"
         if fails:
             detail += f" SPEC fails {fails[:6]} (site={sig['site']} cond={sig['cond']})"
+            if sig.get("beyond_known"):
+                detail += (" — not accounted for by the known findings D23-D26: "
+                           + str([f for f in fails if not explained(f)][:4]))
             i = sig["step"]
             if i < len(steps):
                 s = steps[i]
@@ -760,6 +1318,110 @@ class C15(Prop):
         if not corr:
             detail += " CORR " + why[:600]
         return {"corr": corr, "spec": spec, "detail": detail, "nontrivial": nontriv, "sig": sig}
+
+    def _judge_state(self, case, obs, answers):
+        model, verdicts = answers[0]["ok"], answers[1]["ok"]
+        steps = obs["steps"]
+        names = ["from_numpy"] + [(e["op"] + "_taxa") if e["e"] == "op" else e["e"] for e in case["edits"]]
+        corr, why = True, ""
+        if len(model) != len(steps):
+            corr, why = False, f"model has {len(model)} states, implementation {len(steps)}"
+        run_mag = 1.0
+        for i, (m, s) in enumerate(zip(model, steps)):
+            if not corr:
+                break
+            if "err" in m or "raised" in s:
+                if m.get("err") != s.get("raised"):
+                    corr, why = False, f"step {i} ({names[i]}): model {m.get('err', 'ok')} vs impl {s.get('raised', 'ok')}"
+                continue
+            run_mag = max(run_mag, _mag(m["unscale"]), _mag([m["loc"]]),
+                          max([1.0] + [abs(float(Fraction(sc))) * _mag([col]) for sc, col in zip(m["scale"], m["mat"])
+                                       if sc not in (None, "nan")]))
+            bad = self._corr_step(m, s, run_mag)
+            if bad:
+                corr, why = False, f"step {i} ({names[i]}) {bad}"
+        fails = [(i, c) for i, v in enumerate(verdicts) for c in v.get("fails", [])]
+        if len(verdicts) < len(steps) and "raised" in steps[-1] and (len(steps) - 1, "raised") not in fails:
+            fails.append((len(steps) - 1, "raised"))
+        sig = None
+        if fails:
+            i, c = fails[0]
+            # never a known finding: the clauses of this kind are the ones the as-is code meets in every state
+            sig = {"site": "state:" + (names[i] if i < len(names) else "?"), "cond": "state:" + c, "step": i}
+        detail = f"state[{case['cls']}] edits={names[1:]}"
+        if fails:
+            detail += f" SPEC fails {fails[:6]}"
+            i = fails[0][0]
+            if i < len(steps):
+                detail += " impl: " + str({k: steps[i].get(k) for k in ("raised", "text", "mat", "loc", "scale", "unscale",
+                                                                         "tmax", "tstd", "tvar") if k in steps[i]})[:500]
+        if not corr:
+            detail += " CORR " + why[:600]
+        return {"corr": corr, "spec": not fails, "detail": detail,
+                "nontrivial": len(case["rows"]) >= 2 and len(steps) >= 2, "sig": sig}
+
+    def _judge_scaledh(self, case, obs, answers):
+        model, verdicts = answers[0]["ok"], answers[1]["ok"]
+        ob = obs["obs"]
+        corr, why = True, ""
+        if len(model) != len(ob):
+            corr, why = False, f"model has {len(model)} calls, implementation {len(ob)}"
+        if not obs["flags"].get("binds_given_arrays", True):
+            corr, why = False, "the constructor does not bind the arrays it is given"
+        mag = max([1.0, _mag(_cols(case["rows"], case["ntrait"])), _mag([case["loc"]])])
+        smax = max([1.0] + [abs(float(Fraction(v))) for v in case["scale"]])
+        smin = 1.0
+        for i, (m, o) in enumerate(zip(model, ob)):
+            if not corr:
+                break
+            if "raised" in o:
+                corr, why = False, f"call {i}: implementation raised {o.get('text')}"
+                break
+            for k in ("res", "mat", "loc", "scale"):
+                if m[k] != o[k]:
+                    corr, why = False, (f"call {i} ({case['steps'][i]['op']}): {k} is array #{o[k]}, model #{m[k]} "
+                                        "(which array is returned / bound)")
+                    break
+            if corr and len(m["arrs"]) != len(o["arrs"]):
+                corr, why = False, f"call {i}: {len(o['arrs'])} arrays reachable, model {len(m['arrs'])}"
+            if not corr:
+                break
+            # a matrix standardised by a small deviation carries the rounding error of the raw values divided by it
+            sc = [abs(Fraction(v[0])) for v in m["arrs"][m["scale"]] if v[0] not in (None, "nan") and Fraction(v[0]) != 0]
+            smin = min(smin, float(min(sc))) if sc else smin
+            for a in m["arrs"]:          # ... also when the deviation was used for a returned copy only
+                for col in a:
+                    xs = [float(Fraction(v)) for v in col if v not in (None, "nan")]
+                    if len(xs) > 1:
+                        mu = sum(xs) / len(xs)
+                        sd = math.sqrt(sum((x - mu) ** 2 for x in xs) / len(xs))
+                        if sd > 0:
+                            smin = min(smin, sd)
+            g = 100 * max(mag, _mag([c for a in m["arrs"] for c in a])) * smax / smin
+            for a, (x, y) in enumerate(zip(m["arrs"], o["arrs"])):
+                if not _close_list(x, y, g):
+                    corr, why = False, f"call {i} ({case['steps'][i]['op']}): array #{a}: model {x} vs impl {y}"
+                    break
+        fails = [(i, c) for i, v in enumerate(verdicts) for c in v.get("fails", [])]
+        for i, o in enumerate(ob):
+            if o.get("nonfinite"):
+                fails.append((i, "nonfinite"))
+        sig = None
+        if fails:
+            i, c = fails[0]
+            sig = {"site": "DenseScaledMatrix." + case["steps"][i]["op"], "cond": c, "step": i}
+        detail = (f"scaledh form={case.get('form')} steps="
+                  f"{[(st['op'], st.get('copy', st.get('inplace'))) for st in case['steps']]} fails={fails[:6]}")
+        if fails and fails[0][0] < len(ob):
+            o = ob[fails[0][0]]
+            if "arrs" in o:
+                detail += " impl: " + str({"mat": o["arrs"][o["mat"]], "loc": o["arrs"][o["loc"]],
+                                           "scale": o["arrs"][o["scale"]], "res": o["arrs"][o["res"]]})[:500]
+            else:
+                detail += " impl: " + str(o)[:300]
+        if not corr:
+            detail += " CORR " + why[:500]
+        return {"corr": corr, "spec": not fails, "detail": detail, "nontrivial": len(case["rows"]) >= 2, "sig": sig}
 
     def _judge_scaled(self, case, obs, answers):
         m, s = answers[0]["ok"], answers[1]["ok"]
@@ -801,6 +1463,33 @@ class C15(Prop):
 
     # ------------------------------------------------------------------ shrinking
     def shrink(self, case):
+        """smaller variants; when the case fails beyond the known findings only variants that still do are
+        offered (the core keeps a variant as soon as its Spec is false, which a known finding also achieves)"""
+        cands = list(self._shrink_candidates(case))
+        if not cands:
+            return
+        try:
+            from .. import core, findings
+            known = findings.load(self.PID)
+            v0 = core.evaluate(self, [case])[0]
+            if v0["spec"] or findings.match(known, self.signature(case, v0["obs"], v0)) is not None:
+                yield from cands
+                return
+            for c, v in zip(cands, core.evaluate(self, cands)):
+                if not v["spec"] and findings.match(known, self.signature(c, v["obs"], v)) is None:
+                    yield c
+        except Exception:
+            return
+
+    def _shrink_candidates(self, case):
+        if case["kind"] == "state":
+            for i in range(len(case["edits"]) - 1, 0, -1):
+                yield dict(case, edits=case["edits"][:i])
+            return
+        if case["kind"] == "scaledh":
+            for i in range(len(case["steps"]) - 1, 0, -1):
+                yield dict(case, steps=case["steps"][:i])
+            return
         if case["kind"] != "history":
             return
         ops = case["ops"]
@@ -831,6 +1520,8 @@ class C15(Prop):
             yield dict(case, cls="BV")
         if case.get("generic"):
             yield dict(case, generic=False)
+        if case.get("layout"):
+            yield {k: v for k, v in case.items() if k != "layout"}
 
     # ------------------------------------------------------------------ self-test mutants
     def mutants(self):
@@ -996,7 +1687,215 @@ class C15(Prop):
             out *= (1.0 / self.scale)
             return out
 
+        # -- round 3: histories on one object, aliasing, magnitudes, argument forms
+        def tvar_mean_square(self, unscale=False):
+            # "stored columns are centred": true only straight out of from_numpy
+            if unscale:
+                return self._scale ** 2 * numpy.nanmean(self._mat * self._mat, axis=self.taxa_axis)
+            return self._mat.var(axis=self.taxa_axis)
+
+        def tstd_root_mean_square(self, unscale=False):
+            if unscale:
+                return self._scale * numpy.sqrt(numpy.nanmean(self._mat * self._mat, axis=self.taxa_axis))
+            return self._mat.std(axis=self.taxa_axis)
+
+        def tmax_cached(self, unscale=False):
+            key = "_tmax_%d" % bool(unscale)
+            if key not in self.__dict__:
+                out = self._mat.max(axis=self.taxa_axis)
+                if unscale:
+                    out = out * self._scale + self._location
+                self.__dict__[key] = out
+            return self.__dict__[key].copy()
+
+        def trange_from_cached_extrema(self, unscale=False):
+            # extrema remembered from the first call; element writes and in-place routines do not refresh them
+            if "_ext" not in self.__dict__:
+                self.__dict__["_ext"] = (self._mat.max(axis=self.taxa_axis), self._mat.min(axis=self.taxa_axis))
+            hi, lo = self.__dict__["_ext"]
+            out = hi - lo
+            return out * self._scale if unscale else out
+
+        def targmax_of_unscaled_first_state(self):
+            if "_amax" not in self.__dict__:
+                self.__dict__["_amax"] = self._mat.argmax(axis=self.taxa_axis)
+            return self.__dict__["_amax"]
+
+        def from_numpy_in_place(cls, mat, taxa=None, taxa_grp=None, trait=None, **kwargs):
+            location = numpy.nanmean(mat, axis=0)
+            scale = numpy.nanstd(mat, axis=0)
+            scale[scale == 0.0] = 1.0
+            mat -= location[None, :]                      # works in the caller's array and keeps it
+            mat *= (1.0 / scale[None, :])
+            return cls(mat=mat, location=location, scale=scale, taxa=taxa, taxa_grp=taxa_grp, trait=trait, **kwargs)
+
+        def from_numpy_isclose_guard(cls, mat, taxa=None, taxa_grp=None, trait=None, **kwargs):
+            location = numpy.nanmean(mat, axis=0)
+            scale = numpy.nanstd(mat, axis=0)
+            scale[numpy.isclose(scale, 0.0)] = 1.0        # absolute tolerance 1e-8: small spreads count as constant
+            mat = (1.0 / scale[None, :]) * (mat - location[None, :])
+            return cls(mat=mat, location=location, scale=scale, taxa=taxa, taxa_grp=taxa_grp, trait=trait, **kwargs)
+
+        def from_numpy_relative_guard(cls, mat, taxa=None, taxa_grp=None, trait=None, **kwargs):
+            location = numpy.nanmean(mat, axis=0)
+            scale = numpy.nanstd(mat, axis=0)
+            scale[scale <= 1e-6 * numpy.abs(location)] = 1.0     # "constant relative to its level"
+            mat = (1.0 / scale[None, :]) * (mat - location[None, :])
+            return cls(mat=mat, location=location, scale=scale, taxa=taxa, taxa_grp=taxa_grp, trait=trait, **kwargs)
+
+        def from_numpy_memory_order(cls, mat, taxa=None, taxa_grp=None, trait=None, **kwargs):
+            flat = mat.ravel(order="K").reshape(mat.shape)       # memory order taken for row-major order
+            location = numpy.nanmean(flat, axis=0)
+            scale = numpy.nanstd(flat, axis=0)
+            scale[scale == 0.0] = 1.0
+            out = (1.0 / scale[None, :]) * (flat - location[None, :])
+            return cls(mat=out, location=location, scale=scale, taxa=taxa, taxa_grp=taxa_grp, trait=trait, **kwargs)
+
+        orig_select = BV.__dict__["select_taxa"]
+
+        def select_identity_returns_self(self, indices, **kwargs):
+            ix = numpy.asarray(indices)
+            if ix.ndim == 1 and ix.shape[0] == self.ntaxa and (ix == numpy.arange(self.ntaxa)).all():
+                return self                                     # "nothing to do"
+            return orig_select(self, indices, **kwargs)
+
+        orig_delete = BV.__dict__["delete_taxa"]
+
+        def delete_nothing_shares_arrays(self, obj, **kwargs):
+            if isinstance(obj, (list, numpy.ndarray)) and len(obj) == 0:
+                return self.__class__(mat=self._mat, location=self._location, scale=self._scale, taxa=self._taxa,
+                                      taxa_grp=self._taxa_grp, trait=self._trait)
+            return orig_delete(self, obj, **kwargs)
+
+        orig_adjoin = BV.__dict__["adjoin_taxa"]
+
+        def adjoin_exact_class_only(self, values, taxa=None, taxa_grp=None, **kwargs):
+            if not isinstance(values, numpy.ndarray) and type(values) is not type(self):
+                raise ValueError("cannot adjoin: 'values' must be of type {0} or numpy.ndarray".format(self.__class__))
+            return orig_adjoin(self, values, taxa=taxa, taxa_grp=taxa_grp, **kwargs)
+
+        def bv_copy_shares_matrix(self):
+            out = self.__class__(mat=self.mat, location=self.location, scale=self.scale, taxa=copy.copy(self.taxa),
+                                 taxa_grp=copy.copy(self.taxa_grp), trait=copy.copy(self.trait))
+            return out
+
+        orig_reorder = m_tm.DenseTaxaMatrix.__dict__["reorder_taxa"]
+
+        def reorder_labels_only_when_grouped(self, indices, **kwargs):
+            if self._taxa_grp is not None and self._taxa is not None:
+                self._taxa = self._taxa[indices]
+                self._taxa_grp = self._taxa_grp[indices]
+                return
+            return orig_reorder(self, indices, **kwargs)
+
+        def rescale_writes_into_parameter_arrays(self, inplace=True):
+            out = self.mat if inplace else self.mat.copy()
+            out *= self.scale
+            out += self.location
+            axes = tuple(range(out.ndim - 1))
+            new_location = numpy.nanmean(out, axis=axes)
+            new_scale = numpy.nanstd(out, axis=axes)
+            new_scale[new_scale == 0.0] = 1.0
+            out -= new_location
+            out *= (1.0 / new_scale)
+            if inplace:
+                self.location[:] = new_location           # integer parameter arrays truncate
+                self.scale[:] = new_scale
+            return out
+
+        def rescale_copy_forgotten(self, inplace=True):
+            out = self.mat                                 # inplace=False works on the object's matrix as well
+            out *= self.scale
+            out += self.location
+            axes = tuple(range(out.ndim - 1))
+            new_location = numpy.nanmean(out, axis=axes)
+            new_scale = numpy.nanstd(out, axis=axes)
+            new_scale[new_scale == 0.0] = 1.0
+            out -= new_location
+            out *= (1.0 / new_scale)
+            self.location = new_location
+            self.scale = new_scale
+            return out if inplace else out.copy()
+
+        def rescale_first_two_axes_only(self, inplace=True):
+            out = self.mat if inplace else self.mat.copy()
+            out *= self.scale
+            out += self.location
+            new_location = numpy.nanmean(out, axis=0)
+            new_scale = numpy.nanstd(out, axis=0)
+            while new_location.ndim > 1:                   # more than two axes: only the leading one was reduced
+                new_location = new_location[0]
+                new_scale = new_scale[0]
+            new_scale[new_scale == 0.0] = 1.0
+            out -= new_location
+            out *= (1.0 / new_scale)
+            if inplace:
+                self.location = new_location
+                self.scale = new_scale
+            return out
+
+        def transform_copy_flag_ignored(self, mat, copy=False):
+            out = mat
+            out -= self.location
+            out *= (1.0 / self.scale)
+            return out
+
+        def untransform_into_view(self, mat, copy=False):
+            out = numpy.ascontiguousarray(mat) if not copy else mat.copy()   # a strided argument is silently copied
+            out *= self.scale
+            out += self.location
+            return out
+
+        def unscale_not_inplace_resets_parameters(self, inplace=True):
+            out = self.mat if inplace else self.mat.copy()
+            out *= self.scale
+            out += self.location
+            self.scale[:] = 1.0                            # also when a copy was asked for
+            self.location[:] = 0.0
+            return out
+
+        def transform_integer_reciprocal(self, mat, copy=False):
+            out = mat.copy() if copy else mat
+            out -= self.location
+            out *= (1 // self.scale) if self.scale.dtype.kind == "i" else (1.0 / self.scale)
+            return out
+
+        orig_to_pandas = BV.__dict__["to_pandas"]
+
+        def to_pandas_forgets_location(self, *args, **kwargs):
+            un = kwargs.pop("unscale", False)
+            df = orig_to_pandas(self, *args, unscale=False, **kwargs)
+            if un:
+                cols = [c for c in df.columns if c not in ("taxa", "taxa_grp")]
+                for j, c in enumerate(cols):
+                    df[c] = df[c] * self._scale[j]
+            return df
+
         return [
+            # round 3
+            ("to_pandas_unscale_without_location", lambda: patch(BV, "to_pandas", to_pandas_forgets_location)),
+            ("tvar_mean_square_assumes_centred_columns", lambda: patch(BV, "tvar", tvar_mean_square)),
+            ("tstd_root_mean_square_assumes_centred_columns", lambda: patch(BV, "tstd", tstd_root_mean_square)),
+            ("tmax_cached_on_the_object", lambda: patch(BV, "tmax", tmax_cached)),
+            ("trange_from_extrema_of_first_call", lambda: patch(BV, "trange", trange_from_cached_extrema)),
+            ("targmax_remembered", lambda: patch(BV, "targmax", targmax_of_unscaled_first_state)),
+            ("from_numpy_works_in_callers_array", lambda: patch(BV, "from_numpy", classmethod(from_numpy_in_place))),
+            ("from_numpy_isclose_scale_guard", lambda: patch(BV, "from_numpy", classmethod(from_numpy_isclose_guard))),
+            ("from_numpy_relative_scale_guard", lambda: patch(BV, "from_numpy", classmethod(from_numpy_relative_guard))),
+            ("from_numpy_memory_order_as_row_major", lambda: patch(BV, "from_numpy", classmethod(from_numpy_memory_order))),
+            ("select_taxa_identity_returns_self", lambda: patch(BV, "select_taxa", select_identity_returns_self)),
+            ("delete_taxa_nothing_shares_arrays", lambda: patch(BV, "delete_taxa", delete_nothing_shares_arrays)),
+            ("adjoin_taxa_rejects_subclass_operand", lambda: patch(BV, "adjoin_taxa", adjoin_exact_class_only)),
+            ("copy_shares_the_stored_matrix", lambda: patch(BV, "__copy__", bv_copy_shares_matrix)),
+            ("reorder_taxa_labels_only_when_grouped", lambda: patch(m_tm.DenseTaxaMatrix, "reorder_taxa",
+                                                                    reorder_labels_only_when_grouped)),
+            ("rescale_writes_into_parameter_arrays", lambda: patch(SM, "rescale", rescale_writes_into_parameter_arrays)),
+            ("rescale_not_inplace_forgets_copy", lambda: patch(SM, "rescale", rescale_copy_forgotten)),
+            ("rescale_reduces_leading_axis_only", lambda: patch(SM, "rescale", rescale_first_two_axes_only)),
+            ("transform_copy_flag_ignored", lambda: patch(SM, "transform", transform_copy_flag_ignored)),
+            ("untransform_strided_argument_copied", lambda: patch(SM, "untransform", untransform_into_view)),
+            ("unscale_copy_resets_parameters", lambda: patch(SM, "unscale", unscale_not_inplace_resets_parameters)),
+            ("transform_integer_reciprocal_of_integer_scale", lambda: patch(SM, "transform", transform_integer_reciprocal)),
             # mechanism 1: from_numpy
             ("from_numpy_scale_not_guarded", lambda: patch(BV, "from_numpy", from_numpy_factory(guard=False))),
             ("from_numpy_location_nanmedian", lambda: patch(BV, "from_numpy", from_numpy_factory(center="nanmedian"))),
